@@ -200,6 +200,7 @@ func (i *interpreter) resetPath() {
 	i.regexes = map[*value]*regexHandle{}
 	i.protoSeq = 0
 	i.manualTimers = false
+	i.jsonStreams = nil
 	i.pendingTimers = nil
 	i.protoMsgs = map[string]iface{}
 	i.depth = 0
@@ -391,6 +392,16 @@ func (i *interpreter) makeViolation(tp targetPanic) *Violation {
 	return v
 }
 
+func schedCount(v *Violation) int {
+	n := 0
+	for _, nd := range v.Nondets {
+		if nd.Kind == "sched" {
+			n++
+		}
+	}
+	return n
+}
+
 func (p *Program) Run(rc RunConfig) *RunResult {
 	entry := rc.Pkg.Func(rc.Entry)
 	res := &RunResult{Entry: rc.Entry, Ends: map[string]int{}, EndSamples: map[string][]string{}, ViolCount: map[string]int{}, Reached: map[string]int{}, Funcs: map[string]bool{}}
@@ -503,6 +514,20 @@ func (p *Program) Run(rc RunConfig) *RunResult {
 					res.ViolCount[key]++
 					if res.ViolCount[key] <= rc.ViolPerKey {
 						res.Violations = append(res.Violations, v)
+					} else {
+						// keep the candidates that depend on the fewest schedule choices: they are
+						// the ones a native run can reproduce
+						worst, wn := -1, schedCount(v)
+						for k, o := range res.Violations {
+							if o.Kind+"|"+o.Site+"|"+o.Msg == key && !o.Unsure {
+								if n := schedCount(o); n > wn {
+									worst, wn = k, n
+								}
+							}
+						}
+						if worst >= 0 && !v.Unsure {
+							res.Violations[worst] = v
+						}
 					}
 				}
 				over := (rc.MaxPaths > 0 && res.Paths >= rc.MaxPaths) || (!deadline.IsZero() && time.Now().After(deadline))
